@@ -733,3 +733,19 @@ def retention_by_cases(ck, S, rid):
     if len(ends) > 1:
         return False, "removeOldFiles() takes its victims from different ends of the list in different cases"
     return True, "executed by cases for N in {-1,0,2,3,5} x 0..8 rotated files (%d cases): exactly the max(0, k - (N-1)) files at the %s end are removed, none for N <= 0" % (n_cases, (list(ends) or ["first"])[0])
+
+
+END_EXACT = ("\\z",)
+
+
+def end_anchor(t):
+    """(kind, body): kind 'exact' for a pattern ending in \\z (end of the subject and nothing else), 'loose' for '$' or \\Z (they also
+    match in front of a final line break: a foreign name that ends in a newline is accepted), None when the pattern is open at the end;
+    body = the pattern without its end anchor"""
+    if t.endswith("\\z") and not t.endswith("\\\\z"):
+        return "exact", t[:-2]
+    if t.endswith("\\Z") and not t.endswith("\\\\Z"):
+        return "loose", t[:-2]
+    if t.endswith("$") and not t.endswith("\\$"):
+        return "loose", t[:-1]
+    return None, t
